@@ -147,7 +147,7 @@ def execute(drv, scripts, work, tag):
     process per script to find the culprit.  Returns (chunks, crashes)."""
     path = os.path.join(work, "hash_%s.ndjson" % tag)
     text = "\n".join("\n".join(s) for _, s in scripts) + "\n"
-    r = runner.run(drv, [path], text, timeout=600)
+    r = runner.run(drv, [path], text, timeout=600, leaks=False)   # leaks are C09's business, not the map's
     chunks, crashes = [], []
     if r.rc == 0:
         cur = None
